@@ -457,6 +457,66 @@ def native_graphs(realm: M.Realm) -> List[Graph]:
     own(In1, Out1, Mid, Skips)
     out.append(Graph("Skips{both:Foo; only_out:Bar skip(deserialization); only_in:Opt[Elt] skip(serialization); conv:Mid,convs:List[Mid] field conversions In1->Mid / Mid->Out1}", Skips, {"Skips": ["Foo", "Elt", "In1", "In1"], "Foo": [], "Elt": [], "In1": []}, ["Skips"], ser_nodes={"Skips": ["Foo", "Bar", "Out1", "Out1"], "Foo": [], "Bar": [], "Out1": []}))
 
+    # -- every annotation keyword of schema(...) in every value form the API accepts, on types
+    #    (class, NewType, Annotated), fields, serialized methods and per call
+    from apischema import schema as sch_
+
+    def extra_fn(js):
+        js["x-generated"] = True
+        js.setdefault("readOnly", False)
+
+    FORMS = {
+        "dep_bool": sch_(deprecated=True),
+        "dep_false": sch_(deprecated=False),
+        "dep_msg": sch_(deprecated="use uuid instead"),
+        "examples": sch_(examples=[1, 2]),
+        "default": sch_(default=3),
+        "default_none": sch_(default=None),
+        "title_desc": sch_(title="T", description="some text"),
+        "format": sch_(format="int32"),
+        "extra_dict": sch_(extra={"x-internal": True, "readOnly": True}),
+        "extra_fn": sch_(extra=extra_fn),
+        "all": sch_(title="T", description="D", default=1, examples=[1], deprecated="gone", format="int64", min=0, extra={"x-a": 1}),
+    }
+    STR_FORMS = {
+        "media": sch_(media_type="application/json", encoding="base64"),
+        "media_only": sch_(media_type="text/plain"),
+        "fmt_dep": sch_(format="uuid", deprecated="use id", examples=["a"], min_len=1),
+    }
+    from apischema.typing import Annotated as Ann_
+
+    NoteId = NewType("NoteId", int)
+    NoteId.__module__ = mod
+    sch_(title="id", description="an id", deprecated="use uuid", examples=[1], default=0, extra={"x-nt": 1})(NoteId)
+    Blob = NewType("Blob", str)
+    Blob.__module__ = mod
+    sch_(media_type="application/json", encoding="base64", format="byte", deprecated=True)(Blob)
+
+    doc_ann = {f"f_{k}": int for k in FORMS}
+    doc_ann.update({f"s_{k}": str for k in STR_FORMS})
+    doc_ann.update({"a_dep": Ann_[int, sch_(deprecated="annotated reason")], "a_all": TOpt[Ann_[int, sch_(title="T", description="D", default=1, examples=(1,), deprecated="gone", format="int64", min=0)]], "nid": NoteId, "nids": TList[NoteId], "blob": TOpt[Blob]})
+    doc_ns: Dict[str, Any] = {"__annotations__": doc_ann}
+    for k, v in {**FORMS, **STR_FORMS}.items():
+        doc_ns[("s_" if k in STR_FORMS else "f_") + k] = dfield(default="x" if k in STR_FORMS else 0, metadata=v)
+    doc_ns.update({"a_dep": 0, "a_all": None, "nid": dfield(default=0, metadata=sch_(deprecated="field over type", title="override")), "nids": dfield(default_factory=list), "blob": None})
+    Doc = dc(type("Doc", (), doc_ns))
+    sch_(title="Doc", description="documented", deprecated="whole class", examples=[{}], extra=extra_fn)(Doc)
+    own(Doc)
+    for k, v in {"dep_msg": FORMS["dep_msg"], "examples": FORMS["examples"], "all": FORMS["all"], "extra_fn": FORMS["extra_fn"], "dep_bool": FORMS["dep_bool"]}.items():
+
+        def meth(d: Doc) -> TOpt[NoteId]:
+            return None
+
+        meth.__name__ = f"m_{k}"
+        serialized(owner=Doc, schema=v)(meth)
+    doc_nodes = {"Doc": ["NoteId", "NoteId", "Blob"], "NoteId": [], "Blob": []}
+    doc_ser = {"Doc": ["NoteId", "NoteId", "Blob"], "NoteId": [], "Blob": []}  # (+ serialized methods: known finding, not extracted)
+    out.append(Graph("Doc (every schema() annotation keyword / value form on fields, Annotated, NewTypes, the class and serialized methods)", Doc, doc_nodes, ["Doc"], ser_nodes={"Doc": ["NoteId", "NoteId", "Blob"] + ["NoteId"] * 5, "NoteId": [], "Blob": []}, check_names=False))
+    for k, v in {**FORMS, "str_media": STR_FORMS["media"]}.items():
+        root = TList[Doc] if k == "all" else (Blob if k == "str_media" else NoteId)
+        nodes_k = doc_nodes if k == "all" else ({"Blob": []} if k == "str_media" else {"NoteId": []})
+        out.append(Graph(f"{'List[Doc]' if k == 'all' else ('Blob' if k == 'str_media' else 'NoteId')} with per-call schema={k}", root, nodes_k, ["Doc"] if k == "all" else (["Blob"] if k == "str_media" else ["NoteId"]), opts={"deserialization": {"schema": v}, "serialization": {"schema": v}}, check_names=k != "all", native=False))  # (native=False: pairwise combinations in the quick tier, every version still visited)
+
     # -- anonymous generic specialization: its body is used at each occurrence
     @dc
     class Box(Generic[T]):
@@ -749,7 +809,7 @@ def run(report, tier: str, seed: int, log_name: str = "schema_references"):
                             if factory_name == "custom" and (all_refs is None or (tier == "quick" and vname in ("2019-09", "draft-07"))):
                                 continue
                             for with_schema in (True, False):
-                                if not with_schema and (all_refs is None or factory_name == "custom"):
+                                if not with_schema and (all_refs is None or factory_name == "custom" or (tier == "quick" and all_refs is False)):
                                     continue
                                 if tier == "quick" and not g.native:
                                     # pool descriptions in the quick tier: pairwise rather than full product
@@ -759,7 +819,7 @@ def run(report, tier: str, seed: int, log_name: str = "schema_references"):
                                         continue
                                     if factory_name == "custom" and not (vname == "2020-12" and all_refs):
                                         continue
-                                    if not with_schema and not (vname == "draft-07" and all_refs is False):
+                                    if not with_schema and not (vname == "draft-07" and all_refs is True):
                                         continue
                                 _one(report, log, g, direction, nodes, root_uses, extra, vname, version, dia, all_refs, factory_name, with_schema, entry, definitions_schema)
         for label, call, must_refuse in clashes:
@@ -790,6 +850,8 @@ def run(report, tier: str, seed: int, log_name: str = "schema_references"):
         log.stats["bound"] += f"; {len(pairs)} (deserialization type, serialization type) pairs sharing a name (6 families: equal / scalar / list-prefix / list-element / nested differences) x all_refs x 2 versions"
         for label, ta, tb, shared in pairs:
             for all_refs, wrap in ((True, lambda t: t), (False, lambda t: __import__("typing").Tuple[t, t])):
+                if tier == "quick" and not all_refs and "both named" not in label:
+                    continue  # quick tier: the all_refs=False variant only for the plain placement
                 for vname in ("2020-12", "oas-3.0") if tier == "thorough" or all_refs else ("2020-12",):
                     key = ("cross-direction", label, all_refs, vname)
                     case = {"deserialization": label.split(" / ")[0], "serialization": label, "all_refs": all_refs, "version": vname}
@@ -836,6 +898,13 @@ def run(report, tier: str, seed: int, log_name: str = "schema_references"):
 inv_cross = ["definitions_schema", "compare_schemas", "_defs_schema"]
 
 
+def C_get(schema, loc: str, kw: str):
+    cur = schema
+    for part in [p for p in loc.split("/") if p != ""]:
+        cur = cur[int(part)] if isinstance(cur, list) else cur[part]
+    return cur.get(kw) if isinstance(cur, dict) else None
+
+
 def _one(report, log, g: Graph, direction, nodes, root_uses, extra, vname, version, dia, all_refs, factory_name, with_schema, entry, definitions_schema):
     eff_all_refs = all_refs if all_refs is not None else vname.startswith("oas")  # documented default
     expected = expected_defs(nodes, root_uses, g.disc, eff_all_refs)
@@ -867,7 +936,7 @@ def _one(report, log, g: Graph, direction, nodes, root_uses, extra, vname, versi
     if res is None:
         return
     res = dict(res)
-    def_opts = {k: v for k, v in opts.items() if k not in ("conversion",)}
+    def_opts = {k: v for k, v in opts.items() if k not in ("conversion", "schema")}
     root_arg = (g.root, opts["conversion"]) if "conversion" in opts else g.root
     defs_sep = gen("definitions", lambda: definitions_schema(**{direction: [root_arg]}, **def_opts))
     if defs_sep is None:
@@ -898,6 +967,12 @@ def _one(report, log, g: Graph, direction, nodes, root_uses, extra, vname, versi
             generic, detail = err.split("|", 1)
             log.fail(f"meta-invalid:{g.name}:{direction}:{vname}:with_schema={with_schema}:{what.split('[')[0]}:{generic}", f"{what} of {direction}_schema({g.name}, version={vname}, all_refs={all_refs}) is not valid against the meta-schema of {'its declared dialect ' + repr(declared) if what == 'result' and declared else 'the dialect of ' + vname}: {detail}", {**case, "schema": sch}, observed=detail, functions_involved=["_schema", "JsonSchemaVersion"])
             break
+
+    if vname == "oas-3.0":
+        for what, sch in [("result", res)] + [(f"definitions[{n}]", s) for n, s in defs_sep.items()]:
+            for kw, loc in C.oas30_field_errors(sch):
+                log.fail(f"meta-invalid:{g.name}:{direction}:{vname}:with_schema={with_schema}:{what.split('[')[0]}:type@{kw}", f"{what} of {direction}_schema({g.name}, version={vname}, all_refs={all_refs}): the OpenAPI 3.0 schema object field {kw!r} at {what}/{loc} holds {C_get(sch, loc, kw)!r}, not a value of its declared type", {**case, "schema": sch}, observed=repr(C_get(sch, loc, kw)), functions_involved=["Schema.merge_into", "_schema", "JsonSchemaVersion"])
+                break
 
     # -- definitions: location, names
     inline_expected = dia["inline_defs"] and factory_name == "default"
